@@ -44,6 +44,20 @@ pub fn check(c: &EncCase) -> Verdict {
         Ok(Err(e)) => return fail(format!("DataMatrix::decode(bitmap) of the crate's own symbol failed: {:?} (input {:?}, size {:?})", e, show(&c.data), dm.size)),
         Err(p) => return fail(format!("DataMatrix::decode(bitmap) of the crate's own symbol panicked: {} (input {:?})", p, show(&c.data))),
     }
+    // the convenience wrappers are documented as the builder with default settings: same symbol
+    if c.modes == 63 && c.macros && c.eci.is_none() {
+        let list = mask_to_list(c.list);
+        let w = if c.fnc1 { guard(|| DataMatrix::encode_gs1(&c.data, list.clone())) } else { guard(|| DataMatrix::encode(&c.data, list.clone())) };
+        match w {
+            Ok(Ok(w)) => {
+                if w.size != dm.size || w.codewords() != dm.codewords() {
+                    return fail(format!("DataMatrix::{} returns {:?} / {:?}, the builder with the same settings {:?} / {:?} (input {:?})", if c.fnc1 { "encode_gs1" } else { "encode" }, w.size, &w.data_codewords()[..w.data_codewords().len().min(12)], dm.size, &dm.data_codewords()[..dm.data_codewords().len().min(12)], show(&c.data)));
+                }
+            }
+            Ok(Err(e)) => return fail(format!("DataMatrix::{} refuses ({:?}) what the builder with the same settings encodes (input {:?})", if c.fnc1 { "encode_gs1" } else { "encode" }, e, show(&c.data))),
+            Err(_) => {} // C11
+        }
+    }
     // path 2: data codewords -> decode_data
     match guard(|| datamatrix::data::decode_data(dm.data_codewords())) {
         Ok(Ok(out)) => {
